@@ -10,6 +10,7 @@
    on the table of its engine.  I = the transcribed fast path is evaluated for classification. *)
 From Coq Require Import List ZArith NArith Bool.
 Import ListNotations.
+From Coq Require Export Uint63.
 From Verif.C20 Require Export Model.
 Open Scope Z_scope.
 
@@ -175,3 +176,71 @@ Definition expected (c : tcase) :=
   end.
 
 Definition classify_all (cs : list tcase) : list N := map classify cs.
+
+(* ------------------------------------------------------------------------------------------------
+   Wire format.  The harness writes a case as ONE list of primitive 63-bit integers, [T [..]%uint63]
+   (elaborating the constructor/list/numeral tree of a case cost ~30 ms; a flat list of primitive
+   integers costs a fraction of that).  Used by the correspondence only, never by a theorem; a
+   stream that does not decode is [CFail], which is always reported. *)
+Definition un (i : int) : N := Z.to_N (Uint63.to_Z i).
+
+Definition P (A : Type) := list N -> option (A * list N).
+Definition ret {A} (a : A) : P A := fun l => Some (a, l).
+Definition bind {A B} (p : P A) (f : A -> P B) : P B :=
+  fun l => match p l with Some (a, l') => f a l' | None => None end.
+Notation "x <- p ;; q" := (bind p (fun x => q)) (at level 61, p at next level, right associativity).
+Definition tok : P N := fun l => match l with x :: t => Some (x, t) | [] => None end.
+Fixpoint rep {A} (n : nat) (p : P A) : P (list A) :=
+  match n with O => ret [] | S k => x <- p ;; r <- rep k p ;; ret (x :: r) end.
+Definition many {A} (p : P A) : P (list A) := n <- tok ;; rep (N.to_nat n) p.
+Definition pnat : P nat := n <- tok ;; ret (N.to_nat n).
+Definition pZ : P Z := z <- tok ;; ret (Z.of_N z - 1000).
+Definition pbool : P bool := b <- tok ;; ret (negb (N.eqb b 0)).
+Definition popt {A} (p : P A) : P (option A) :=
+  t <- tok ;; if N.eqb t 0 then ret None else x <- p ;; ret (Some x).
+Definition unpack3 (w : N) : list N := [w mod 65536; (w / 65536) mod 65536; w / 4294967296]%N.
+Definition pstr : P str :=
+  n <- tok ;; ws <- rep (N.to_nat ((n + 2) / 3)) tok ;; ret (firstn (N.to_nat n) (flat_map unpack3 ws)).
+Definition pmres : P mres :=
+  a <- pZ ;; b <- pZ ;; caps <- many (popt pstr) ;;
+  g <- popt (many (k <- pstr ;; v <- popt pstr ;; ret (k, v))) ;;
+  r <- many (popt (x <- pZ ;; y <- pZ ;; ret (x, y))) ;;
+  ret (mkM a b caps g r).
+Definition pres : P ores :=
+  t <- tok ;;
+  match t with
+  | 0%N => ret (OK RNull)
+  | 1%N => m <- pmres ;; ret (OK (RM m))
+  | 2%N => b <- pbool ;; ret (OK (RB b))
+  | 3%N => l <- many (popt pstr) ;; ret (OK (RL l))
+  | 4%N => l <- many pmres ;; ret (OK (RAll l))
+  | 5%N => x <- pstr ;; ret (OK (RS x))
+  | 6%N => z <- pZ ;; ret (OK (RZ z))
+  | _ => e <- tok ;; ret (Err e)
+  end.
+Definition pstep : P (ores * Z) := r <- pres ;; li <- pZ ;; ret (r, li).
+Definition pop : P op :=
+  t <- tok ;;
+  match t with
+  | 0%N => ret OExec | 1%N => ret OTest | 2%N => ret OMatch | 3%N => ret OMatchAll
+  | 4%N => ret OReplace | 5%N => ret OSearch | 6%N => ret (OSplit None)
+  | _ => z <- pZ ;; ret (OSplit (Some z))
+  end.
+Definition pengine : P engine := t <- tok ;; ret (if N.eqb t 0 then RE2 else RX2).
+Definition pflags : P flags :=
+  g <- pbool ;; i <- pbool ;; m <- pbool ;; s <- pbool ;; u <- pbool ;; y <- pbool ;; ret (mkFlags g i m s u y).
+Definition pcase : P tcase :=
+  t <- tok ;;
+  match t with
+  | 0%N =>
+      fl <- pflags ;; ncap <- tok ;; names <- many (k <- tok ;; nm <- pstr ;; ret (k, nm)) ;;
+      subj <- pstr ;; start <- pZ ;; ops <- many pop ;; eA <- pengine ;; eB <- pengine ;;
+      ents <- many (popt pmres) ;; iA <- many pnat ;; iB <- many pnat ;;
+      obsd <- many (many pstep) ;; oi <- many pnat ;;
+      ret (CRun fl ncap names subj start ops eA eB ents iA iB obsd oi)
+  | 1%N => fs <- pstr ;; a <- pbool ;; c <- pbool ;; ret (CFlags fs a c)
+  | 2%N => b <- pbool ;; eA <- tok ;; eB <- tok ;; ret (CSyntax b eA eB)
+  | _ => ret CFail
+  end.
+Definition T (l : list int) : tcase :=
+  match pcase (map un l) with Some (c, []) => c | _ => CFail end.
